@@ -27,9 +27,9 @@ RULE = ("(soup) a case is one generated string - 1..10 atoms drawn from operator
         "when the intended result set is neither empty nor the whole corpus; distinct = distinct (configuration, type "
         "tree of the intended expression).")
 ASSUMPTIONS = [
-    "totality searches run on a single-segment index without deletions (search(limit=None), search(limit=3) and "
-    "docs_for_query); matcher-layer defects that need deletions or several segments belong to C01/C07/C11 and are "
-    "not attributed to the parser",
+    "totality searches run on a single-segment index without deletions (search(limit=None), search(limit=3), "
+    "docs_for_query) and on a three-segment index with deleted documents (search(limit=None), search(limit=3)); "
+    "only exception types are judged there, result sets are compared in the language monitor on the first index",
     "language: parsed and intended queries are compared as *document sets* on one corpus (single segment, no deletions, "
     "limit=None); scores and boosts values are not compared (a boost only has to leave the selected set unchanged)",
     "language oracle: a case fails only when the parsed query's documents differ from BOTH the independent Python-set "
@@ -57,8 +57,8 @@ ASSUMPTIONS = [
     "and the shard watchdog of the framework turns a hang into inconclusive",
 ]
 SHARDS = {"quick": 4, "thorough": 16}
-BUDGET_S = {"quick": 70, "thorough": 600}
-FLOORS = {"soup.strings": 600, "soup.parses": 9000, "soup.searches": 7000, "soup.inband_errors": 500,
+BUDGET_S = {"quick": 90, "thorough": 700}
+FLOORS = {"soup.strings": 600, "soup.parses": 9000, "soup.searches": 12000, "soup.inband_errors": 500,
           "lang.cases": 600, "lang.nontrivial": 250, "lang.agree": 600, "simple.cases": 60}
 
 VOCAB = ["alfa", "bravo", "charlie", "delta", "echo", "foxtrot", "golf", "hotel", "india", "juliet",
@@ -128,9 +128,27 @@ def build_world(ctx):
         for word in VOCAB + KVOCAB:
             assert [t.text for t in fld.analyzer(word, mode="index")] == [word], (fname, word)
             assert [t.text for t in fld.analyzer(word, mode="query")] == [word], (fname, word)
+    # a second index with the same documents spread over three segments, some of them deleted: the totality
+    # monitor also runs every parsed query there ("running that query on any index")
+    ix2 = RamStorage().create_index(schema)
+    for lo, hi in ((0, 20), (20, 36), (36, NDOCS)):
+        w = ix2.writer()
+        for d in docs[lo:hi]:
+            i = int(d["id"])
+            w.add_document(id=d["id"], t=" ".join(d["t"]), t2=" ".join(d["t2"]), tp=" ".join(d["t"]),
+                           to=" ".join(d["t2"]), ts=" ".join(d["t"]), k=" ".join(d["k"]), kc=",".join(d["k"]),
+                           il=" ".join(d["k"]), n=d["n"], u8=abs(d["n"]), f=d["f"], dc=Decimal(d["n"]) / 4, d=d["d"],
+                           b=d["b"], g=" ".join(d["t"][:2]), gw=" ".join(d["t"][:3]), gq=d["t"][0], s="stored %d" % i)
+        w.commit(merge=False)
+    w = ix2.writer()
+    for i in (1, 2, 19, 20, 21, 35, 47):
+        w.delete_by_term("id", str(i))
+    w.commit(merge=False)
     W = World()
     W.schema, W.ix, W.docs = schema, ix, docs
     W.searcher = ix.searcher()
+    W.searcher2 = ix2.searcher()
+    assert len(W.searcher2.reader().leaf_readers()) == 3 and W.searcher2.reader().has_deletions()
     assert len(W.searcher.reader().leaf_readers()) == 1 and not W.searcher.reader().has_deletions()
     W.all = frozenset(d["id"] for d in docs)
     W.parsers = make_parsers(schema)
@@ -171,7 +189,8 @@ def make_parsers(schema):
                dateparse.DateParserPlugin(base)):
         p.add_plugin(pl)
     # language profile: the added syntax does not touch the characters the language generator uses
-    P["allplugins"] = (p, dict(group="and", default=["t"], dateplugin=True))
+    P["allplugins"] = (p, dict(group="and", default=["t"], dateplugin=True, gtlt=True,
+                                 alias={"text": "t2", "body": "t2"}))
     p = QueryParser("t", schema)
     for pl in (plugins.FuzzyTermPlugin(), plugins.GtLtPlugin(), plugins.RegexPlugin(), plugins.PlusMinusPlugin(),
                dateparse.DateParserPlugin(base, free=True), plugins.MultifieldPlugin(["t", "k"])):
@@ -191,7 +210,7 @@ def make_parsers(schema):
     P["keep-unknown-fields"] = (p, dict(group="and", default=["t"]))
     p = QueryParser("t", schema)
     p.replace_plugin(plugins.OperatorsPlugin(And="&", Or="\\|", AndNot="&!", AndMaybe="&~", Not="-"))
-    P["symbol-operators"] = (p, None)
+    P["symbol-operators"] = (p, dict(group="and", default=["t"], ops=SYMBOL_OPS, negatives=False))
     P["variations"] = (QueryParser("ts", schema, termclass=query.Variations), None)
     P["noschema"] = (QueryParser("t", None), None)
     return P
@@ -332,7 +351,7 @@ def soup_case(ctx, rng, W):
         wit = dict(wit, query=repr(q)[:300])
         if name in NO_SEARCH:
             continue
-        for how in ("all", "top3", "docs"):
+        for how in ("all", "top3", "docs", "multiseg-all", "multiseg-top3"):
             ctx.count("soup.searches")
             try:
                 if how == "all":
@@ -343,8 +362,14 @@ def soup_case(ctx, rng, W):
                     r = s.search(q, limit=3)
                     r.scored_length()
                     [h.score for h in r]
-                else:
+                elif how == "docs":
                     list(s.docs_for_query(q))
+                elif how == "multiseg-all":
+                    r = W.searcher2.search(q, limit=None)
+                    [h.docnum for h in r]
+                else:
+                    r = W.searcher2.search(q, limit=3)
+                    [h.score for h in r]
                 ctx.count("soup.searches_ok")
             except query.QueryError:
                 ctx.count("soup.query_errors")
@@ -395,9 +420,18 @@ BINOPS = {"andnot": "ANDNOT", "andmaybe": "ANDMAYBE", "require": "REQUIRE"}
 def gen_leaf(rng, prof, st):
     r = rng.random()
     fld = rng.choice(TEXT_FIELDS)
+    if prof.get("alias") and rng.random() < 0.15:
+        fld = rng.choice(sorted(prof["alias"]))
     vocab = KVOCAB if fld == "k" else VOCAB
+    if prof.get("gtlt") and rng.random() < 0.07:
+        fn = rng.choice(["n", "f", "k"])
+        op = rng.choice(["<", ">", "<=", ">=", "=<", "=>"])
+        if fn == "k":
+            return ("gtlt", fn, op, rng.choice(KVOCAB))
+        return ("gtlt", fn, op, rng.choice(list(range(-5, 21)) if fn == "n" else [x * 0.5 for x in range(-4, 21)]))
     if r < 0.42:
-        return ("term", fld, rng.choice(vocab[:8] if rng.random() < 0.7 else vocab))
+        kind = "qterm" if (prof.get("squote", True) and rng.random() < 0.08) else "term"
+        return (kind, fld, rng.choice(vocab[:8] if rng.random() < 0.7 else vocab))
     if r < 0.52:
         f2 = fld if fld != "k" else None
         n = rng.choice([2, 2, 2, 3])
@@ -507,7 +541,7 @@ def gen_tree(rng, prof, depth, st=None, top=True):
         st = {"rangefields": set()}
     if depth <= 0:
         leaf = gen_leaf(rng, prof, st)
-        if rng.random() < 0.12:
+        if rng.random() < 0.12 and leaf[0] not in ("qterm", "gtlt"):
             leaf = ("boost", leaf, rng.choice(["2", "0.5", "2.5", "10", ".5", "3.0"]))
         return leaf
     r = rng.random()
@@ -526,7 +560,7 @@ def gen_tree(rng, prof, depth, st=None, top=True):
         return ("paren", sub())
     if r < 0.95:
         x = sub()
-        fld = rng.choice(["t", "t2", "k"])
+        fld = rng.choice(["t", "t2", "k"] + sorted(prof.get("alias", {})))
         if fld == "k" and has_kind(x, ("phrase",)):
             fld = "t2"      # KEYWORD has no positions: a phrase there is a (documented) QueryError
         return ("fgroup", fld, x)
@@ -539,8 +573,10 @@ def gen_tree(rng, prof, depth, st=None, top=True):
 
 def shape_of(t):
     k = t[0]
-    if k in ("term", "prefix", "wild"):
+    if k in ("term", "qterm", "prefix", "wild"):
         return (k, t[1])
+    if k == "gtlt":
+        return (k, t[1], t[2])
     if k == "phrase":
         return (k, t[1], len(t[2]), t[3])
     if k == "range":
@@ -584,9 +620,15 @@ def level(t):
     return 0
 
 
-def render(t, maxlevel):
+WORD_OPS = {"not": "NOT ", "and": " AND ", "or": " OR ", "andnot": " ANDNOT ", "andmaybe": " ANDMAYBE ",
+            "require": " REQUIRE "}
+# the symbols of the documented example in parsing.rst ("Changing the AND, OR, ANDNOT, ANDMAYBE, and NOT syntax")
+SYMBOL_OPS = {"not": "-", "and": " & ", "or": " | ", "andnot": " &! ", "andmaybe": " &~ ", "require": " REQUIRE "}
+
+
+def render(t, maxlevel, sp=WORD_OPS):
     """Render `t`; parenthesise when its level exceeds what the context allows."""
-    s = _render(t)
+    s = _render(t, sp)
     if level(t) > maxlevel:
         return "(" + s + ")"
     return s
@@ -602,10 +644,12 @@ def _num(v):
     return str(v)
 
 
-def _render(t):
+def _render(t, sp=WORD_OPS):
     k = t[0]
     if k == "term":
         return _fp(t[1]) + t[2]
+    if k == "qterm":
+        return _fp(t[1]) + "'" + t[2] + "'"
     if k == "phrase":
         s = _fp(t[1]) + '"' + " ".join(t[2]) + '"'
         if t[3] != 1:
@@ -625,6 +669,8 @@ def _render(t):
         _, fld, lo, hi, le, he = t
         body = ("%s " % _num(lo) if lo is not None else "") + "TO" + (" %s" % _num(hi) if hi is not None else "")
         return fld + ":" + ("{" if le else "[") + body + ("}" if he else "]")
+    if k == "gtlt":
+        return t[1] + ":" + t[2] + (_num(t[3]) if not isinstance(t[3], str) else t[3])
     if k == "date":
         return "d:" + t[1]
     if k == "drange":
@@ -634,24 +680,24 @@ def _render(t):
     if k == "id":
         return "id:" + t[1]
     if k == "not":
-        return "NOT " + render(t[1], 0)
+        return sp["not"] + render(t[1], 0, sp)
     if k == "and":
-        return " AND ".join(render(x, 1) for x in t[1])
+        return sp["and"].join(render(x, 1, sp) for x in t[1])
     if k == "or":
-        return " OR ".join(render(x, 2) for x in t[1])
+        return sp["or"].join(render(x, 2, sp) for x in t[1])
     if k in BINOPS:
         a, b = t[1], t[2]
         # same operator on the left: left-associative chain; everything else of level 4 is parenthesised
-        left = _render(a) if (a[0] == k) else render(a, 3)
-        return left + " " + BINOPS[k] + " " + render(b, 3)
+        left = _render(a, sp) if (a[0] == k) else render(a, 3, sp)
+        return left + sp[k] + render(b, 3, sp)
     if k == "seq":
-        return " ".join(render(x, 4) for x in t[1])
+        return " ".join(render(x, 4, sp) for x in t[1])
     if k == "paren":
-        return "(" + _render(t[1]) + ")"
+        return "(" + _render(t[1], sp) + ")"
     if k == "fgroup":
-        return t[1] + ":(" + _render(t[2]) + ")"
+        return t[1] + ":(" + _render(t[2], sp) + ")"
     if k == "boost":
-        return render(t[1], 0) + "^" + t[2]
+        return render(t[1], 0, sp) + "^" + t[2]
     raise ValueError(k)
 
 
@@ -684,7 +730,7 @@ def model_eval(t, W, prof, fld_ctx=None):
 
     def fields_of(f):
         if f is not None:
-            return [f]
+            return [prof.get("alias", {}).get(f, f)]
         if fld_ctx is not None:
             return [fld_ctx]
         return prof["default"]
@@ -696,8 +742,15 @@ def model_eval(t, W, prof, fld_ctx=None):
                 if pred(d[fn]):
                     out.add(d["id"])
         return out
-    if k == "term":
+    if k in ("term", "qterm"):
         return by_tokens(t[1], lambda toks: t[2] in toks)
+    if k == "gtlt":
+        _, f, op, v = t
+        cmp = {"<": lambda x: x < v, ">": lambda x: x > v, "<=": lambda x: x <= v, "=<": lambda x: x <= v,
+               ">=": lambda x: x >= v, "=>": lambda x: x >= v}[op]
+        if f in ("n", "f"):
+            return set(d["id"] for d in docs if cmp(d[f]))
+        return by_tokens(f, lambda toks: any(cmp(w) for w in toks))
     if k == "phrase":
         words, slop = t[2], t[3]
 
@@ -787,7 +840,7 @@ def model_eval(t, W, prof, fld_ctx=None):
     if k == "fgroup":
         # the innermost enclosing field group wins? No: set_fieldname(override=False) is applied by the
         # innermost group first, so an inner group's field sticks - which is also the natural reading.
-        return model_eval(t[2], W, prof, t[1])
+        return model_eval(t[2], W, prof, prof.get("alias", {}).get(t[1], t[1]))
     raise ValueError(k)
 
 
@@ -800,15 +853,23 @@ def to_query(t, W, prof, fld_ctx=None):
 
     def over_fields(f, mk):
         if f is not None:
-            return mk(f)
+            return mk(prof.get("alias", {}).get(f, f))
         if fld_ctx is not None:
             return mk(fld_ctx)
         fl = prof["default"]
         if len(fl) == 1:
             return mk(fl[0])
         return query.Or([mk(x) for x in fl])
-    if k == "term":
+    if k in ("term", "qterm"):
         return over_fields(t[1], lambda f: query.Term(f, t[2]))
+    if k == "gtlt":
+        _, f, op, v = t
+        lo, hi, le, he = {"<": (None, v, False, True), ">": (v, None, True, False), "<=": (None, v, False, False),
+                          "=<": (None, v, False, False), ">=": (v, None, False, False),
+                          "=>": (v, None, False, False)}[op]
+        if f in ("n", "f"):
+            return query.NumericRange(f, lo, hi, le, he)
+        return query.TermRange(f, lo, hi, le, he)
     if k == "phrase":
         return over_fields(t[1], lambda f: query.Phrase(f, list(t[2]), slop=t[3]))
     if k == "prefix":
@@ -850,7 +911,7 @@ def to_query(t, W, prof, fld_ctx=None):
     if k in ("paren", "boost"):
         return cv(t[1])
     if k == "fgroup":
-        return to_query(t[2], W, prof, t[1])
+        return to_query(t[2], W, prof, prof.get("alias", {}).get(t[1], t[1]))
     raise ValueError(k)
 
 
@@ -878,14 +939,108 @@ def has_kind(t, kinds):
     return False
 
 
-_KINDS = {"term", "phrase", "prefix", "wild", "range", "num", "nrange", "date", "drange", "bool", "id", "not", "and",
+_KINDS = {"term", "qterm", "gtlt", "phrase", "prefix", "wild", "range", "num", "nrange", "date", "drange", "bool", "id", "not", "and",
           "or", "andnot", "andmaybe", "require", "seq", "paren", "fgroup", "boost"}
 
 
-def lang_case(ctx, rng, W):
+def lang_eval(W, name, tree):
+    """Parse render(tree) with configuration `name` and compare documents. -> dict(status=..., ...)"""
     import traceback
-    from whoosh import query
     from whoosh.qparser import QueryParserError
+    parser, prof = W.parsers[name]
+    text = render(tree, 9, prof.get("ops", WORD_OPS))
+    res = {"text": text, "tree": tree}
+    res["expected"] = expected = frozenset(model_eval(tree, W, prof))
+    try:
+        q = parser.parse(text)
+    except QueryParserError as e:
+        return dict(res, status="rejected", detail=repr(e))
+    except Exception as e:  # noqa
+        mech, in_harness = exc_mech("parse", e)
+        if in_harness:
+            raise
+        return dict(res, status="parse-exc", mech=mech, detail=traceback.format_exc()[-2500:])
+    res["parsed"] = repr(q)[:600]
+    try:
+        got = engine_docs(W, q)
+    except Exception as e:  # noqa
+        mech, in_harness = exc_mech("search", e)
+        if in_harness:
+            raise
+        return dict(res, status="search-exc", mech=mech, detail=traceback.format_exc()[-2500:])
+    res["got"] = got
+    if got == expected:
+        return dict(res, status="agree", model=True)
+    # second reading: same tree as whoosh.query objects through the same engine
+    try:
+        eng = engine_docs(W, to_query(tree, W, prof))
+    except Exception:  # noqa  (engine defect on the intended tree: not the parser's)
+        eng = None
+    res["eng"] = eng
+    if eng is not None and got == eng:
+        return dict(res, status="agree", model=False)
+    return dict(res, status="differ")
+
+
+def shrink_candidates(t):
+    """Smaller trees: a sub-tree in place of the tree, an n-ary node without one child, or the same node with one
+    child replaced by one of its own candidates."""
+    k = t[0]
+    if k in ("not", "paren"):
+        yield t[1]
+        for c in shrink_candidates(t[1]):
+            yield (k, c)
+    elif k == "boost":
+        yield t[1]
+        for c in shrink_candidates(t[1]):
+            yield (k, c, t[2])
+    elif k == "fgroup":
+        yield t[2]
+        for c in shrink_candidates(t[2]):
+            yield (k, t[1], c)
+    elif k in ("and", "or", "seq"):
+        xs = t[1]
+        for x in xs:
+            yield x
+        if len(xs) > 2:
+            for i in range(len(xs)):
+                yield (k, xs[:i] + xs[i + 1:])
+        for i, x in enumerate(xs):
+            for c in shrink_candidates(x):
+                yield (k, xs[:i] + (c,) + xs[i + 1:])
+    elif k in BINOPS:
+        yield t[1]
+        yield t[2]
+        for c in shrink_candidates(t[1]):
+            yield (k, c, t[2])
+        for c in shrink_candidates(t[2]):
+            yield (k, t[1], c)
+    elif k == "phrase" and len(t[2]) > 2:
+        yield (k, t[1], t[2][:2], t[3])
+
+
+def shrink(W, name, tree, budget=300):
+    """Greedy delta-debugging over the intended tree while the same monitor (documents differ) keeps firing."""
+    cur = tree
+    best = None
+    progress = True
+    while progress and budget > 0:
+        progress = False
+        for cand in shrink_candidates(cur):
+            budget -= 1
+            if budget <= 0:
+                break
+            try:
+                r = lang_eval(W, name, cand)
+            except Exception:  # noqa
+                continue
+            if r["status"] == "differ":
+                cur, best, progress = cand, r, True
+                break
+    return cur, best
+
+
+def lang_case(ctx, rng, W):
     names = [n for n, (_p, prof) in W.parsers.items() if prof and not prof.get("simple")]
     name = rng.choice(names)
     parser, prof = W.parsers[name]
@@ -893,70 +1048,58 @@ def lang_case(ctx, rng, W):
     st = {"rangefields": set(), "popB": popB}
     depth = rng.choice([1, 1, 2, 2, 2, 3, 3, 4])
     tree = gen_tree(rng, prof, depth, st)
-    text = render(tree, 9)
     ctx.count("lang.cases")
     ctx.count("lang.popB" if popB else "lang.popA")
     ctx.count("lang.config." + name)
-    wit = {"config": name, "text": text, "tree": tree}
-    expected = frozenset(model_eval(tree, W, prof))
-    try:
-        q = parser.parse(text)
-    except QueryParserError as e:
-        ctx.fail("language.parse", "well-formed-rejected:" + name, wit, repr(e))
+    r = lang_eval(W, name, tree)
+    wit = {"config": name, "text": r["text"], "tree": tree}
+    st_ = r["status"]
+    if st_ == "rejected":
+        ctx.fail("language.parse", "well-formed-rejected:" + name, wit, r["detail"])
         return ("lang", name, "rejected"), False, wit
-    except Exception as e:  # noqa
-        mech, in_harness = exc_mech("parse", e)
-        if in_harness:
-            raise
-        ctx.fail("language.parse", mech, wit, traceback.format_exc()[-2500:])
+    if st_ in ("parse-exc", "search-exc"):
+        ctx.fail("language.parse" if st_ == "parse-exc" else "language.search", r["mech"], wit, r["detail"])
         return ("lang", name, "exc"), False, wit
-    wit["parsed"] = repr(q)[:600]
-    try:
-        got = engine_docs(W, q)
-    except Exception as e:  # noqa
-        mech, in_harness = exc_mech("search", e)
-        if in_harness:
-            raise
-        ctx.fail("language.search", mech, wit, traceback.format_exc()[-2500:])
-        return ("lang", name, "exc"), False, wit
+    expected = r["expected"]
+    wit["parsed"] = r["parsed"]
     ctx.count("lang.evals")
     nontrivial = bool(expected) and expected != W.all
     if nontrivial:
         ctx.count("lang.nontrivial")
-    if got == expected:
+    if st_ == "agree":
         ctx.count("lang.agree")
-        ctx.count("lang.agree_model")
-    else:
-        # second reading: same tree as whoosh.query objects through the same engine
-        try:
-            eng = engine_docs(W, to_query(tree, W, prof))
-        except Exception as e:  # noqa  (engine defect on the intended tree: not the parser's)
-            eng = None
-            ctx.count("lang.intended_engine_exc")
-        if eng is not None and eng != expected:
-            ctx.count("lang.engine_vs_model")
-            ctx.note("engine vs model differ on intended tree: %r" % (text,))
-        if eng is not None and got == eng:
-            ctx.count("lang.agree")
+        if r["model"]:
+            ctx.count("lang.agree_model")
         else:
-            wit["expected"] = sorted(expected, key=int)
-            wit["got"] = sorted(got, key=int)
-            wit["missing"] = sorted(expected - got, key=int)
-            wit["extra"] = sorted(got - expected, key=int)
-            # diagnosis: is it normalize() (C15) or the syntax tree?
-            mech = "docs-differ"
-            try:
-                qun = parser.parse(text, normalize=False)
-                gun = engine_docs(W, qun)
-                wit["parsed_unnormalized"] = repr(qun)[:600]
-                if gun == expected or (eng is not None and gun == eng):
-                    mech = "normalize-changes-docs"
-                    if popB and _is_range_merge(qun):
-                        mech = "known:c15-and-range-intersect-merge"
-            except Exception:  # noqa
-                pass
-            ctx.fail("language.docs", mech if mech.startswith("known:") else "%s:%s" % (mech, _culprit(tree)), wit,
-                     "expected %d docs, got %d" % (len(expected), len(got)))
+            ctx.count("lang.engine_vs_model")
+            ctx.note("engine vs model differ on intended tree: %r" % (r["text"],))
+    else:
+        if r.get("eng") is not None and r["eng"] != expected:
+            ctx.count("lang.engine_vs_model")
+        small, rs = shrink(W, name, tree)
+        if rs is None:
+            small, rs = tree, r
+        wit = {"config": name, "text": rs["text"], "tree": small, "parsed": rs["parsed"],
+               "original_text": r["text"] if small is not tree else None}
+        exp, got = rs["expected"], rs["got"]
+        wit["expected"] = sorted(exp, key=int)
+        wit["got"] = sorted(got, key=int)
+        wit["missing"] = sorted(exp - got, key=int)
+        wit["extra"] = sorted(got - exp, key=int)
+        # diagnosis: is it normalize() (C15) or the syntax tree?
+        mech = "docs-differ"
+        try:
+            qun = parser.parse(rs["text"], normalize=False)
+            gun = engine_docs(W, qun)
+            wit["parsed_unnormalized"] = repr(qun)[:600]
+            if gun == exp or (rs.get("eng") is not None and gun == rs["eng"]):
+                mech = "normalize-changes-docs"
+                if popB and _is_range_merge(qun):
+                    mech = "known:c15-and-range-intersect-merge"
+        except Exception:  # noqa
+            pass
+        ctx.fail("language.docs", mech if mech.startswith("known:") else "%s:%s" % (mech, _culprit(small)), wit,
+                 "expected %d docs, got %d" % (len(exp), len(got)))
     return ("lang", name, shape_of(tree)), nontrivial, (wit if nontrivial else None)
 
 
@@ -988,9 +1131,9 @@ def _culprit(t):
     inner = sorted(k for k in kinds if k in ("not", "and", "or", "andnot", "andmaybe", "require", "seq", "paren",
                                              "fgroup", "boost"))
     leaves = sorted(k for k in kinds if k not in inner)
-    if len(leaves) > 2:
-        leaves = ["many"]
-    return "+".join(inner) + "/" + "+".join(leaves)
+    if inner:
+        return "+".join(inner)
+    return "+".join(leaves)
 
 
 # ---- SimpleParser / DisMaxParser: + - and phrases ------------------------------------
@@ -1056,7 +1199,7 @@ def simple_case(ctx, rng, W):
 def run(ctx):
     W = build_world(ctx)
     try:
-        for idx in ctx.cases(quick=900, thorough=9000):
+        for idx in ctx.cases(quick=750, thorough=6000):
             rng = ctx.rng(idx)
             ctx.reseed_global(idx)
             r = rng.random()
@@ -1069,3 +1212,4 @@ def run(ctx):
             ctx.case(shape, nontrivial, sample=w if (idx % 211 == 0) else None)
     finally:
         W.searcher.close()
+        W.searcher2.close()
